@@ -366,6 +366,143 @@ def oracle(line, impl, model, ref=None):
     return None
 
 
+
+# ---- limb-exact bigint streams ("bigl ..."): the Lean limb loops vs the real ones, word for word -------------
+B64 = 2 ** 64
+LIMB_VALUES = [0, 1, 2 ** 32 - 1, 2 ** 32, 2 ** 32 + 1, 2 ** 64 - 1, 2 ** 64, 2 ** 64 + 1, 2 ** 128 - 1, 2 ** 128, 2 ** 128 + 1,
+               2 ** 192 - 1, (2 ** 64 - 1) << 64, 1 << 128 | 1, ((2 ** 64 - 1) << 128) | (2 ** 64 - 1), 10 ** 19, 10 ** 19 - 1, 10 ** 38, 255, 256, 65535]
+WORD_VALUES = [0, 1, 2, 10, 255, 256, 2 ** 31, 2 ** 32 - 1, 2 ** 32, 2 ** 32 + 1, 2 ** 63, 2 ** 64 - 2, 2 ** 64 - 1, 10 ** 19]
+
+
+def limbs_str(v):
+    s = "n" if v < 0 else "p"
+    v = abs(v)
+    ws = []
+    while v:
+        ws.append("%x" % (v % B64))
+        v //= B64
+    return s + ",".join(ws)
+
+
+def limbs_val(t):
+    v = 0
+    if len(t) > 1:
+        for i, w in enumerate(t[1:].split(",")):
+            v += int(w, 16) << (64 * i)
+    return -v if t[0] == "n" else v
+
+
+def limbs_normal(t):
+    return len(t) == 1 or int(t[1:].split(",")[-1], 16) != 0
+
+
+def gen_limb_int(rng):
+    r = rng.random()
+    if r < 0.3:
+        v = rng.choice(LIMB_VALUES)
+    else:
+        v = abs(gen_big(rng))
+    return v * rng.choice([1, 1, -1])
+
+
+def gen_bigl_lines(rng, n):
+    ls = []
+    vals = [s * v for v in LIMB_VALUES for s in (1, -1)]
+    for a in vals:
+        for w in WORD_VALUES:
+            ls.append("bigl mulw %s %x" % (limbs_str(a), w))
+            if w:
+                ls.append("bigl divw %s %x" % (limbs_str(a), w))
+        for k in (0, 1, 31, 32, 33, 63, 64, 65, 127, 128, 129, 191, 192, 256):
+            ls.append("bigl shl %s %d" % (limbs_str(a), k))
+            ls.append("bigl shr %s %d" % (limbs_str(a), k))
+        ls.append("bigl tobytes " + limbs_str(a))
+        ls.append("bigl tostr " + limbs_str(a))
+        ls.append("bigl parse x" + str(a).encode().hex())
+        ls.append("bigl frombytes %d x%s" % ((a > 0) - (a < 0), abs(a).to_bytes(max((abs(a).bit_length() + 7) // 8, 1), "big").hex()))
+    for a in vals[::2]:
+        for b in vals[1::3]:
+            for op in ("mul", "add", "sub"):
+                ls.append("bigl %s %s %s" % (op, limbs_str(a), limbs_str(b)))
+    for _ in range(n):
+        a, b = gen_limb_int(rng), gen_limb_int(rng)
+        for op in ("mul", "add", "sub"):
+            ls.append("bigl %s %s %s" % (op, limbs_str(a), limbs_str(b)))
+        w = rng.choice(WORD_VALUES) if rng.random() < 0.5 else rng.getrandbits(rng.choice([8, 16, 32, 33, 64]))
+        ls.append("bigl mulw %s %x" % (limbs_str(a), w))
+        if w:
+            ls.append("bigl divw %s %x" % (limbs_str(a), w))
+        k = rng.choice([0, 1, 7, 31, 32, 33, 63, 64, 65, 127, 128, 200, rng.randrange(0, 400)])
+        ls.append("bigl shl %s %d" % (limbs_str(a), k))
+        ls.append("bigl shr %s %d" % (limbs_str(a), k))
+        ls.append("bigl tobytes " + limbs_str(a))
+        ls.append("bigl tostr " + limbs_str(a))
+        text = str(a)
+        if rng.random() < 0.3:
+            text = ("-" if a < 0 else "") + "0" * rng.randint(1, 25) + str(abs(a))
+        ls.append("bigl parse x" + text.encode().hex())
+        nb = rng.randint(0, 40)
+        raw = bytes(rng.choice([0, 0, 1, 255, rng.getrandbits(8)]) for _ in range(nb))
+        ls.append("bigl frombytes %d x%s" % (rng.choice([-1, 0, 1]), raw.hex()))
+    for t in [b"", b"-", b"0", b"-0", b"00", b"-000", b"+1", b"1a", b"a", b" 1", b"1 ", b"--1", b"1-", b"0x10", b"12345678901234567890123456789x",
+              b"000000000000000000000000000000", b"-000000000000000000000000000001"]:
+        ls.append("bigl parse x" + t.hex())
+    return ls
+
+
+def oracle_bigl(line, impl, model, ref=None):
+    """the real limb output, read as an integer, against exact Python arithmetic"""
+    t = line.split()
+    op = t[1]
+    p = impl.split()
+    if op == "parse":
+        s = bytes.fromhex(t[2][1:])
+        if re.match(rb"^-?[0-9]+$", s):
+            if p[0] != "ok":
+                return "a decimal literal was rejected by the bigint constructor: " + impl
+            if limbs_val(p[1]) != int(s):
+                return "bigint(text) is not the value of its decimal digits: got %d" % limbs_val(p[1])
+            return None
+        return None if impl == "err" else "a non-decimal string was accepted by the bigint constructor: " + impl
+    if op == "frombytes":
+        sg = int(t[2])
+        raw = bytes.fromhex(t[3][1:])
+        want = int.from_bytes(raw, "big") * (-1 if sg < 0 else 1)
+        return None if p[0] == "ok" and limbs_val(p[1]) == want else "from_bytes_be is not the big-endian value of its bytes: " + impl[:80]
+    a = limbs_val(t[2])
+    if op == "tobytes":
+        want = "ok %d x%s" % ((a > 0) - (a < 0), abs(a).to_bytes(max((abs(a).bit_length() + 7) // 8, 1), "big").hex())
+        return None if impl == want else "write_bytes_be is not the big-endian magnitude: got %s want %s" % (impl[:80], want[:80])
+    if op == "tostr":
+        want = "ok x" + str(a).encode().hex()
+        return None if impl == want else "write_string is not the decimal expansion: " + impl[:80]
+    if op == "divw":
+        d = int(t[3], 16)
+        if p[0] != "ok":
+            return "divide failed: " + impl
+        q, r = limbs_val(p[1]), limbs_val(p[2])
+        wq = trunc_div(a, d)
+        return None if (q, r) == (wq, a - d * wq) else "divide by a word: got q=%d r=%d, want q=%d r=%d" % (q, r, wq, a - d * wq)
+    if op == "mulw":
+        want = a * int(t[3], 16)
+    elif op in ("shl", "shr"):
+        k = int(t[3])
+        want = (abs(a) << k if op == "shl" else abs(a) >> k) * (-1 if a < 0 else 1)
+    else:
+        b = limbs_val(t[3])
+        want = a * b if op == "mul" else (a + b if op == "add" else a - b)
+    if p[0] != "ok" or limbs_val(p[1]) != want:
+        return "bigint %s disagrees with integer arithmetic: got %s, want %s" % (op, impl[:80], limbs_str(want)[:80])
+    if not limbs_normal(p[1]):
+        return "bigint %s left a zero word at the high end: %s" % (op, impl[:80])
+    return None
+
+
+def nontrivial_bigl(line, impl):
+    t = line.split()
+    return line if len(line) > 30 or t[1] in ("shl", "shr") else None
+
+
 def compare(line, io, mo):
     if mo == "" or mo is None:
         return True
@@ -400,6 +537,8 @@ def streams(ctx, rng, scale):
     ctx.correspond("bigint", "num", lb, oracle, nontrivial, compare=compare)
     lf = gen_format_lines(rng, 600 * scale, ctx.tier)
     ctx.correspond("double-formats", "num", lf, format_oracle, nontrivial, want_model=False)
+    ll = gen_bigl_lines(rng, 150 * scale)
+    ctx.correspond("bigint-limbs", "num", ll, oracle_bigl, nontrivial_bigl, compare=compare)
 
 
 def run(ctx):
@@ -411,7 +550,11 @@ def run(ctx):
                        "and at explicit precisions 1..40 through the JSON and the CSV encoder, for the boundary doubles plus random bit patterns, 17-digit values, "
                        "|v| < 2, subnormals and short decimals (precision 0 must read back exactly; an explicit precision must equal the correctly rounded "
                        "rendering with that many digits). Oracle: Python exact integers and correctly rounded float() / % formatting. "
-                       "non-trivial by length of the operand; distinct by op line")
+                       "non-trivial by length of the operand; distinct by op line. "
+                       "bigint-limbs: the modelled limb loops (*= word, *= bigint, +=, -=, <<=, >>=, string constructor, from_bytes_be, write_bytes_be, "
+                       "divide by one word, write_string) against the real member functions word for word, operands built from "
+                       "{0,1,2^32-1,2^32,2^32+1,2^64-1,2^64,2^64+1,2^128-1,2^128,2^192-1,all-ones words,zero words in the middle,10^19,10^38} "
+                       "x words {0,1,2,10,255,256,2^31,2^32-1,2^32,2^32+1,2^63,2^64-2,2^64-1,10^19} x shifts {0,1,31..33,63..65,127..129,191,192,256}")
     ctx.assumptions.append("Python's float()/repr are correctly rounded (IEEE-754 binary64) and Python int arithmetic is exact: used as the arithmetic oracle")
     rng = vlib.rng_for(ctx.seed, "c04")
     streams(ctx, rng, 1 if ctx.tier == "quick" else 12)
